@@ -392,7 +392,7 @@ def check_pem(ctx, oid="C14.3"):
     for L in (32, 33, 65):
         k = tm.sized("key", L)
         evf = ctx.evaluator(opaque={"bits.pem.encode_pem"}, max_depth=12, extra_prims={"bits.utils.compute_point": cp_prim})
-        kind, val = rules.decided_outcome(evf.run(fi, {fi.params()[0]: k}))
+        kind, val = rules.strict_outcome(evf.run(fi, {fi.params()[0]: k}))
         val = rules.unfz(val)
         okapp = kind == "return" and isinstance(val, T) and val.op == "app" and val.args[0] == "bits.pem.encode_pem"
         R.check(oid, "TERM-EQ", fi, "len %d: PEM(DER document, header, footer)" % L, okapp, "pem_encode_key(%d bytes) = %s %s" % (L, kind, tm.show(val)[:200]))
@@ -421,7 +421,7 @@ def check_pem(ctx, oid="C14.3"):
     R.floor(oid, len(trees), 3, "der_documents")
     for L in (0, 31, 34, 64, 66):
         evf = ctx.evaluator(opaque={"bits.pem.encode_pem"}, max_depth=12, extra_prims={"bits.utils.compute_point": cp_prim})
-        kind, val = rules.decided_outcome(evf.run(fi, {fi.params()[0]: tm.sized("key", L) if L else b""}))
+        kind, val = rules.strict_outcome(evf.run(fi, {fi.params()[0]: tm.sized("key", L) if L else b""}))
         R.check(oid, "DECISION-TABLE", fi, "a %d-byte key is refused" % L, kind == "raise", "pem_encode_key accepts a %d-byte key (%s)" % (L, kind), nontrivial=False)
     # OID tables agree in both directions
     eve = ctx.evaluator(max_depth=12)
